@@ -23,6 +23,9 @@ type Op struct {
 	A, B, C, D int8
 }
 
+// MemLimit is the heap size (bytes) above which an exploration stops expanding the current level (0 = no limit).
+var MemLimit int64
+
 // Failure describes a property violation found on one execution.
 type Failure struct {
 	Prop string // property id the violated oracle belongs to
@@ -294,6 +297,31 @@ func Explore(sc Scenario, cfg Config) *Stats {
 	deadlineHit := func() bool {
 		return !cfg.Deadline.IsZero() && time.Now().After(cfg.Deadline)
 	}
+	// memory budget: a level-synchronous search holds all transitions of a level; a sampler watches the heap and ends the
+	// exploration of the current level like a time budget does (everything explored so far stays valid)
+	var memHit int32
+	stopSampler := make(chan struct{})
+	if MemLimit > 0 {
+		go func() {
+			t := time.NewTicker(300 * time.Millisecond)
+			defer t.Stop()
+			var ms runtime.MemStats
+			for {
+				select {
+				case <-stopSampler:
+					return
+				case <-t.C:
+					runtime.ReadMemStats(&ms)
+					if int64(ms.HeapAlloc) > MemLimit {
+						atomic.StoreInt32(&memHit, 1)
+					} else if int64(ms.HeapAlloc) < MemLimit*3/4 {
+						atomic.StoreInt32(&memHit, 0)
+					}
+				}
+			}
+		}()
+	}
+	defer close(stopSampler)
 
 	type itemRes struct {
 		rs       []res
@@ -315,6 +343,16 @@ func Explore(sc Scenario, cfg Config) *Stats {
 			st.CapHit = "time budget"
 			break
 		}
+		if atomic.LoadInt32(&memHit) != 0 {
+			runtime.GC()
+			var ms runtime.MemStats
+			runtime.ReadMemStats(&ms)
+			if int64(ms.HeapAlloc) > MemLimit*3/4 {
+				st.CapHit = "memory budget"
+				break
+			}
+			atomic.StoreInt32(&memHit, 0)
+		}
 		st.FrontierSizes = append(st.FrontierSizes, len(frontier))
 		out := make([]itemRes, len(frontier))
 		var next int64 = -1
@@ -330,7 +368,7 @@ func Explore(sc Scenario, cfg Config) *Stats {
 					if int(fi) >= len(frontier) {
 						return
 					}
-					if fi%64 == 0 && deadlineHit() {
+					if fi%64 == 0 && (deadlineHit() || atomic.LoadInt32(&memHit) != 0) {
 						atomic.StoreInt32(&aborted, 1)
 					}
 					if atomic.LoadInt32(&aborted) != 0 {
@@ -477,6 +515,9 @@ func Explore(sc Scenario, cfg Config) *Stats {
 		}
 		if !complete {
 			st.CapHit = "time budget"
+			if atomic.LoadInt32(&memHit) != 0 {
+				st.CapHit = "memory budget"
+			}
 			frontier = nextFrontier
 			break
 		}
